@@ -14,9 +14,9 @@
 (*   cut   k       the recorder truncated the script to k bytes              *)
 (*   seek          cursor back to 0                                          *)
 (*   getop vmin    get_opcode at the cursor: res "ok" (op, data, new pc),    *)
-(*                 "bad" (malformed), "nonminimal" (MINIMALDATA error raised;*)
-(*                 for a malformed push under vmin either rejection is       *)
-(*                 accepted: the property only says it must not be read)     *)
+(*                 "bad" (malformed), "nonminimal" (MINIMALDATA error raised)*)
+(*                 as ScriptPush!Fetch reports: a push that is cut short is  *)
+(*                 malformed with and without vmin, whatever it announces    *)
 (*   walk          ScriptTools.get_opcodes over the whole script: the logged  *)
 (*                 <<pc, new pc>> steps; it must terminate, the cursor must  *)
 (*                 move forward in every step, and up to the first malformed *)
@@ -54,9 +54,10 @@ TCut == Cur.a = "cut" /\ scr' = RTake(scr, Cur.k) /\ scr' = Cur.script /\ UNCHAN
 TSeek == Cur.a = "seek" /\ pc' = 0 /\ UNCHANGED scr
 TGetOp ==
   /\ Cur.a = "getop" /\ pc < RLen(scr)
-  /\ LET r == DecodeAt(scr, pc) IN
-     IF r.ph = "bad" THEN (Cur.res = "bad" \/ (Cur.vmin /\ Cur.res = "nonminimal")) /\ pc' = pc
-     ELSE IF Cur.vmin /\ ~MinimalOK(r) THEN Cur.res = "nonminimal" /\ pc' = pc
+  /\ LET r == DecodeAt(scr, pc)
+         rep == Fetch(r, Cur.vmin) IN
+     IF rep = "malformed" THEN Cur.res = "bad" /\ pc' = pc
+     ELSE IF rep = "nonminimal" THEN Cur.res = "nonminimal" /\ pc' = pc
      ELSE /\ Cur.res = "ok" /\ Cur.op = r.op /\ Cur.pc = r.pc /\ pc' = r.pc
           /\ Cur.nodata = ~IsPush(r)
           /\ IsPush(r) => Cur.data = PushedValue(r)
@@ -76,13 +77,12 @@ TAsm ==
   /\ UNCHANGED <<scr, pc>>
 
 \* ---- ground truth from Core's vectors
-AllMinimal(s) == LET p == Parse(s, 0) IN \A i \in 1..Len(p) : MinimalOK(p[i])
+CoreErr(rep) == CASE rep = "malformed" -> "BAD_OPCODE" [] rep = "nonminimal" -> "MINIMALDATA" [] OTHER -> "OK"
 TCoreNum == Cur.a = "core_num" /\
             Stateless(LET v == [neg |-> Cur.neg, mag |-> Cur.mag] IN
                       IsNum(v) /\ Encode(v) = Cur.out /\ Decode(Cur.out) = v /\ Minimal(Cur.out))
 TCorePush == Cur.a = "core_push" /\
-             Stateless(Cur.verdict = (IF ~WellFormed(Cur.script) THEN "BAD_OPCODE"
-                                      ELSE IF Cur.minflag /\ ~AllMinimal(Cur.script) THEN "MINIMALDATA" ELSE "OK"))
+             Stateless(Cur.verdict = CoreErr(ScriptReport(Cur.script, Cur.minflag)))
 TCoreNumArg == Cur.a = "core_numarg" /\
                Stateless(Cur.verdict = (IF Minimal(Cur.b) THEN "OK" ELSE "UNKNOWN_ERROR"))
 
